@@ -51,7 +51,7 @@ class Agent:
     def reply(self, cfg, req, varbinds, ptype="response", reqid=None, msgid=None, community=None, user=None,
               engine=None, key_engine=None, ver=None, mac="valid", flag_auth=None, flag_priv=None, enc=None,
               boots=None, time=None, truncate=0, es=0, ei=0, form=None, flags_extra=0, salt=None, ctx_engine=None,
-              auth_key=None, priv_key=None, trailing=b""):
+              auth_key=None, priv_key=None, trailing=b"", max_size=65507):
         """varbinds: list of (name, value); name = arcs list or raw OID content bytes."""
         reqid = req.reqid if reqid is None else reqid
         pdu = rc.enc_pdu(ptype, reqid, es, ei, varbinds, form)
@@ -102,7 +102,7 @@ class Agent:
         authp = b"" if mac == "absent" else bytes(12)
         if isinstance(mac, dict) and mac["kind"] in ("short", "long"):
             authp = bytes(mac["k"])                       # a field of another length (the MAC is computed over the message as sent)
-        d = rc.enc_v3_msg(msgid, flags, engine, boots, time, user, authp, privp, data, form=form) + trailing
+        d = rc.enc_v3_msg(msgid, flags, engine, boots, time, user, authp, privp, data, form=form, max_size=max_size) + trailing
         if mac != "absent":
             m = rc.parse_msg(d)
             pos = m["auth_pos"]
